@@ -749,7 +749,7 @@ func sectionRace(rng *vh.Rng) {
 						if onlyRecent {
 							finding = "F46" // every hidden event belongs to the last two Write calls: readable, hull/index update pending
 						} else if onlyLastChunk {
-							// F48: the newest chunk's index entry was forgotten by a syncChunks working on an older chunk list; later
+							// F53: the newest chunk's index entry was forgotten by a syncChunks working on an older chunk list; later
 							// notifications re-created it from their own batches only. Some schedule of the model (forget the chunk at a
 							// batch boundary) yields exactly this outcome iff, in each of the newest chunks, the hidden events are a PREFIX of
 							// the chunk's in-range events: nothing that is delivered from a chunk precedes a hidden event of the same chunk
@@ -772,7 +772,7 @@ func sectionRace(rng *vh.Rng) {
 								}
 							}
 							if prefix {
-								finding = "F48"
+								finding = "F53"
 							}
 							in["hidden_is_prefix_of_last_chunk"] = prefix
 						}
